@@ -61,6 +61,10 @@ CHECKS = {
          "Every derivation step the run produces (private, public, hardened, normal, after string round trip) is compared with an independent reference validated against the published vectors; seeds and child indices are searched so that short private scalars occur in every run. Held = on all derivations of this run.",
          "trusts internal/ref (self-checked against BIP32 vectors 1-4 and BIP39 English vectors at start-up), Go's crypto/hmac, sha512, math/big",
          "DESIGN.md §3 C18"),
+ "C19": ("exploration", "model-based runtime monitoring: seeded adversarial operation sequences on the real leveldb-backed bucket store, differential against a tree-of-maps reference with full logical dumps",
+         "300 (quick) / 20 000 (thorough) seeded sequences of 60 / 120 bucket, key and transaction operations with layout-imitating names and keys are applied to the real store and to a tree-of-maps model; every result, error class and a full logical dump after each commit, rollback and reopen is compared (ten sequences share one store, so earlier sequences' buckets are re-checked too). Held on all sequences explored; histories not generated are not covered.",
+         "edge semantics (which names/keys/values are rejected, handles designate paths) are taken from the code and its tests and listed in the driver; goleveldb itself is trusted only as far as the dumps confirm it",
+         "DESIGN.md §3 C19"),
  "C20": ("exploration", "seeded adversarial-input differential monitoring of the real gateway chain, api.Server handlers over scripted space keepers, and the amount codec, against net/netip, massutil and math/big reference oracles",
          "Well-formed non-wildcard addresses are compared with an independent net/netip classification through the real gateway chain (403 and zero inner-handler calls for every unconfigured origin; malformed strings must not panic or be admitted beyond a lenient reading); every workspace listed by a real api.Server must match massutil's binding target and address and echo its key/size/ordinal/state; in-range amounts must render as the exact canonical decimal and parse back; the started gRPC listener must be bound to 127.0.0.1. No claim beyond the generated inputs; 127/8 other than 127.0.0.1 is not judged.",
          "trusts net/netip, mass-core massutil as the definition of binding target and address, math/big; H5 exports (build tag verif) wrap the unexported gateway functions",
